@@ -577,6 +577,22 @@ func genC06(g *Gen) {
 		}
 	}
 	for _, mgr := range []string{"unsafe", "safe"} {
+		// the same container / operand object re-assigned in place between two calls
+		for _, s1 := range strIdx {
+			for _, s2 := range strIdx {
+				if s1 == s2 {
+					continue
+				}
+				for idx := 1; idx <= 4; idx++ { // the small integers at the start of the pool
+					g.Run("an operand object re-assigned in place between calls", []Ev{
+						{"op": "bstep", "mgr": mgr, "name": "GetElement", "ai": s1, "bi": idx, "ipa": true, "ipb": false, "full": full, "xseed": int(c06extraSeed)},
+						{"op": "bstep", "mgr": mgr, "name": "GetElement", "ai": s2, "bi": idx, "ipa": true, "ipb": idx%2 == 0, "full": full, "xseed": int(c06extraSeed)},
+						{"op": "bstep", "mgr": mgr, "name": "Add", "ai": s1, "bi": s2, "ipa": true, "ipb": true, "full": full, "xseed": int(c06extraSeed)},
+						{"op": "bstep", "mgr": mgr, "name": "GetElement", "ai": s1, "bi": idx, "ipa": true, "ipb": false, "full": full, "xseed": int(c06extraSeed)},
+						{"op": "bstep", "mgr": mgr, "name": "Equal", "ai": s2, "bi": s1, "ipa": true, "ipb": true, "full": full, "xseed": int(c06extraSeed)}})
+				}
+			}
+		}
 		for rep := 0; rep < g.Pick(60, 1500); rep++ {
 			var seg []Ev
 			names := append(append([]string{}, binNames...), "GetElement", "In")
